@@ -338,10 +338,7 @@ func TestVerifC08(t *testing.T) {
 			res.Violate(name+"/"+v.Signature, fmt.Sprintf("scenario %s, schedule %v: %s\nschedule:\n  %s", name, v.Choices, v.Detail, strings.Join(v.Trace, "\n  ")), vfC08Replay{name, v.Choices})
 		}
 		states += st.Executions
-		for _, c := range st.Outcomes {
-			transitions += c
-		}
-		transitions += st.Executions * int64(st.MaxPoints) / 2
+		transitions += st.Decisions
 		exhaustive = exhaustive && st.Exhaustive
 		for o, c := range st.Outcomes {
 			outcomes[name+": "+o] += c
